@@ -353,7 +353,8 @@ Proof.
     + apply in_range_iff in Hr. simpl.
       destruct (zget (d_have (a_st a)) i false).
       * assert (G1 : Good t (emit a (EPiece i))) by (apply good_emit; auto; simpl; now apply in_range_iff).
-        destruct (serve_good _ q i G1 Hr) as [a' [E [G' A']]]. exists a'. repeat split; auto; apply G'.
+        destruct (serve_good _ q i G1 Hr) as [a' [E [G' A']]]. rewrite (proj2 (in_range_iff t i) Hr) in E.
+        exists a'. repeat split; auto; apply G'.
       * eexists; split; [reflexivity|]. split; [|reflexivity]. apply GE. apply good_emit; auto. simpl. now apply in_range_iff.
     + eexists; split; [reflexivity|]. split; [auto|reflexivity].
   - destruct (t_n t <=? i) eqn:E1; [eexists; split; [reflexivity|]; split; [auto|reflexivity]|].
@@ -427,7 +428,7 @@ Proof.
   intros a q m HG. unfold dispatch. simpl.
   destruct (m_ty m =? 5).
   { destruct (m_err m) as [[i c]|]; [|eauto]. eexists; split; [reflexivity|].
-    destruct (c =? 0); auto. now apply good_mark_invalid. }
+    destruct (c =? 0); [now apply good_mark_invalid | exact HG]. }
   destruct (m_ty m =? 3).
   { destruct (m_ann m) as [i|]; [|eauto].
     destruct (handle_announce_good a q i HG) as [a' [E [G _]]]; eauto. }
